@@ -1,5 +1,6 @@
 import Gonnx.Ops.Const
 import Gonnx.Proofs.Binary
+import Gonnx.Ops.IntWrap
 /-
 C11 — Constant, ConstantOfShape and Cast yield the specified values and element type.
 Model: Gonnx/Ops/Const.lean. The elementwise conversion `conv : DType → DType → α → β` is a parameter;
@@ -162,5 +163,9 @@ theorem constantOfShape_refuses (zeroPlus : α → α) (value : α) (shape : Lis
 -- non-vacuity: a zero extent in the middle
 example : constantOfShapeOp (fun v : Int => 0 + v) 7 [2, 0, 3] = .error .invalidTensor :=
   constantOfShape_refuses _ 7 [2, 0, 3] 0 (by decide) (by decide)
+
+/-- the conversion model of this file is the reduction the driver applies (`Gonnx.wrapBits`, whose
+homomorphism / range / uniqueness theorems are in `Theorems/C03b.lean`) -/
+theorem wrapInt_eq_wrapBits : @wrapInt = @Gonnx.wrapBits := rfl
 
 end Gonnx.C11
